@@ -101,6 +101,14 @@ func ivPermutation(a edit.Applied) bool {
 	return moved
 }
 
+// ivPermutationText: the same test on the two complete declarations (an edit that reorders two
+// statements which differ only in the loop variable they use IS an exchange of those two
+// variables; the edit record itself only holds a clipped excerpt of the block).
+func ivPermutationText(p, q string) bool {
+	norm := func(s string) string { return strings.Join(strings.Fields(s), " ") }
+	return ivPermutation(edit.Applied{Before: norm(p), After: norm(q)})
+}
+
 func detail(a edit.Applied, tags []string) string {
 	for _, t := range tags {
 		if strings.HasPrefix(t, "size/") {
@@ -356,7 +364,11 @@ func batch(res *evid.Result, bi int, root string) {
 			if byFP {
 				how = "by-fingerprint"
 			}
-			pend = append(pend, pending{fn.Name, "preserved/" + how + "/" + detail(ed, fn.Tags), fmt.Sprintf("%s and its edit (%s: %q -> %q) behave differently on %s (%s vs %s) but the diff reports the declaration as preserved (%s)", fn.Name, ed.Kind, ed.Before, ed.After, nexec.InputDesc(fn.Sig, vec), oa, ob, how),
+			kindKey := detail(ed, fn.Tags)
+			if how == "by-fingerprint" && !strings.HasPrefix(kindKey, "size/") && ivPermutationText(fn.Text, v.File.Funcs[gi].Text) {
+				kindKey = "iv-loop-identity/exchanged-loop-variables"
+			}
+			pend = append(pend, pending{fn.Name, "preserved/" + how + "/" + kindKey, fmt.Sprintf("%s and its edit (%s: %q -> %q) behave differently on %s (%s vs %s) but the diff reports the declaration as preserved (%s)", fn.Name, ed.Kind, ed.Before, ed.After, nexec.InputDesc(fn.Sig, vec), oa, ob, how),
 				map[string]any{"function": fn.Name, "edit": ed, "observed_old": oa, "observed_new": ob, "entries": es, "old": trim(fn.Text), "new": trim(v.File.Funcs[gi].Text), "batch": bi}})
 			if bi == 0 && res.GetCount("sampled") < 3 {
 				res.Count("sampled", 1)
